@@ -42,6 +42,20 @@ IsAlpha(c) == IsUpper(c) \/ IsLower(c)
 IsHex(c)   == IsDigit(c) \/ (c >= 65 /\ c <= 70) \/ (c >= 97 /\ c <= 102)
 HexVal(c)  == IF IsDigit(c) THEN c - 48 ELSE IF c >= 97 THEN c - 87 ELSE c - 55
 ToLower(c) == IF IsUpper(c) THEN c + 32 ELSE c
+\* simple case folding for matching without regard to case: ASCII, Latin-1, Greek and Cyrillic capitals (the
+\* letters with a one-to-one lower-case partner; what the C library's towlower does for them)
+FoldLower(c) == IF IsUpper(c) THEN c + 32
+                ELSE IF c >= 192 /\ c <= 222 /\ c # 215 THEN c + 32
+                ELSE IF c >= 913 /\ c <= 937 /\ c # 930 THEN c + 32
+                ELSE IF c >= 1040 /\ c <= 1071 THEN c + 32
+                ELSE IF c >= 1024 /\ c <= 1039 THEN c + 80
+                ELSE c
+FoldUpper(c) == IF IsLower(c) THEN c - 32
+                ELSE IF c >= 224 /\ c <= 254 /\ c # 247 THEN c - 32
+                ELSE IF c >= 945 /\ c <= 969 /\ c # 962 THEN c - 32
+                ELSE IF c >= 1072 /\ c <= 1103 THEN c - 32
+                ELSE IF c >= 1104 /\ c <= 1119 THEN c - 80
+                ELSE c
 
 \* Sequence helpers on code point sequences
 Drop(s, n) == IF n >= Len(s) THEN <<>> ELSE SubSeq(s, n + 1, Len(s))
